@@ -374,6 +374,49 @@ Theorem C16_extract_confined :
 Proof. exact extract_confined_x. Qed.
 Print Assumptions C16_extract_confined.
 
+(* neither operation ever creates a link: symlink and hard-link entries make Extract fail
+   ("unknown type") and are loaded by Expand as empty regular files, so any link that exists
+   afterwards existed before *)
+Theorem C16_extract_creates_no_link :
+  forall (t : tnode) (R : list string) (s : tstream) (t' : tnode) (e : option xerr),
+  Forall (fun c => c <> "" /\ c <> "." /\ c <> "..") R ->
+  (forall q, (exists r, R = (q ++ r)%list) -> forall tg, tget t q <> Some (TLink tg)) ->
+  (exists es, tget t R = Some (TDir es)) ->
+  extract_model t R s = (t', e) ->
+  forall q tg, tget t' q = Some (TLink tg) -> tget t q = Some (TLink tg).
+Proof. exact extract_creates_no_link_x. Qed.
+Print Assumptions C16_extract_creates_no_link.
+
+Theorem C16_expand_creates_no_link :
+  forall (t : tnode) (R : list string) (name : string) (fs : list file) (t' : tnode) (e : option xerr),
+  Forall (fun c => c <> "" /\ c <> "." /\ c <> "..") R ->
+  (forall q, (exists r, R = (q ++ r)%list) -> forall tg, tget t q <> Some (TLink tg)) ->
+  (exists es, tget t R = Some (TDir es)) ->
+  expand_model t R name fs = (t', e) ->
+  forall q tg, tget t' q = Some (TLink tg) -> tget t q = Some (TLink tg).
+Proof. exact expand_creates_no_link_x. Qed.
+Print Assumptions C16_expand_creates_no_link.
+
+(* why rejecting link entries is the safe behaviour.  A symlink case for Extract that checks the
+   target LEXICALLY (absolute targets refused, Join(Dir(path), linkname) must stay below the
+   target directory — lexical_link_entry, not Helm's code) accepts the two cooperating entries
+   "here -> ." and "up -> here/..": textually "here/.." is the directory itself, but "here" is a
+   link, and the kernel resolves dest/up to the PARENT of the destination, so dest/up/secret reads
+   a file outside.  The single-entry attacks ("..", absolute, "a/../../x") are refused by it. *)
+Theorem C16_lexical_link_guard_refuted :
+  let r1 := lexical_link_entry guard_tree guard_dest "here" "." in
+  let r2 := lexical_link_entry (fst r1) guard_dest "up" "here/.." in
+  snd r1 = None /\ snd r2 = None /\
+  tget (fst r2) (guard_dest ++ ["up"]) = Some (TLink "here/..") /\
+  c_walk (fst r2) (guard_dest ++ ["up"]) true = WAt ["sb"; "work"] (TDir [("dest", TDir [("here", TLink "."); ("up", TLink "here/..")]); ("secret", TFile "outside")]) /\
+  c_walk (fst r2) (guard_dest ++ ["up"; "secret"]) true = WAt ["sb"; "work"; "secret"] (TFile "outside") /\
+  link_resolves_inside (fst r2) guard_dest (guard_dest ++ ["up"]) = false /\
+  snd (lexical_link_entry guard_tree guard_dest "up" "..") = Some XName /\
+  snd (lexical_link_entry guard_tree guard_dest "up" "/sb/work") = Some XName /\
+  snd (lexical_link_entry guard_tree guard_dest "up" "a/../../x") = Some XName.
+Proof. exact lexical_link_guard_refuted. Qed.
+Print Assumptions C16_lexical_link_guard_refuted.
+
 (* the hypotheses are met by a destination full of hostile links ... *)
 Example C16_tree_hyp_ex :
   Forall (fun c => c <> "" /\ c <> "." /\ c <> "..") ex_dest /\
